@@ -44,6 +44,7 @@ Print Assumptions C37_same_ddl_same_tags.
 
 Theorem C37_tags_distinct_partial :
   forall (rand_seq : bytes -> bytes -> list N -> N -> N -> nat -> N) fuel s t news s',
+    names_distinct (map fst news) = true ->
     lookup t (work s) = None -> lookup t (head s) = None ->
     step rand_seq fuel s (Create t news) = Some s' ->
     exists tags, work s' = set_table t (mk_cols news tags) (work s)
@@ -61,6 +62,25 @@ Theorem C37_addcol_tag_fresh :
 Proof. exact addcol_tag_fresh. Qed.
 Print Assumptions C37_addcol_tag_fresh.
 
+(* Full statement (false: C37_tags_distinct_refuted): the same conclusion without the safe_run hypothesis. *)
+Theorem C37_tags_distinct_run_partial :
+  forall (rand_seq : bytes -> bytes -> list N -> N -> N -> nat -> N) fuel ds s,
+    NoDup (root_tags (work s) ++ other s) -> NoDup (root_tags (head s) ++ other s) ->
+    safe_run rand_seq fuel s ds = true ->
+    forall s', In s' (reached rand_seq fuel s ds) ->
+      NoDup (root_tags (work s') ++ other s') /\ NoDup (root_tags (head s') ++ other s').
+Proof. exact tags_distinct_run_partial. Qed.
+Print Assumptions C37_tags_distinct_run_partial.
+
+Theorem C37_tags_distinct_run_no_recreate :
+  forall (rand_seq : bytes -> bytes -> list N -> N -> N -> nat -> N) fuel ds s,
+    NoDup (root_tags (work s) ++ other s) -> NoDup (root_tags (head s) ++ other s) ->
+    no_recreate (map fst (head s)) (map fst (work s)) ds = true ->
+    forall s', In s' (reached rand_seq fuel s ds) ->
+      NoDup (root_tags (work s') ++ other s') /\ NoDup (root_tags (head s') ++ other s').
+Proof. exact tags_distinct_run_no_recreate. Qed.
+Print Assumptions C37_tags_distinct_run_no_recreate.
+
 Theorem C37_tags_distinct_refuted :
   exists rand_seq ds s, run rand_seq 8 {| head := []; work := []; other := [] |} ds = Some s /\ distinct (root_tags (work s)) = false.
 Proof. exact tags_distinct_refuted. Qed.
@@ -72,6 +92,30 @@ Theorem C37_schema_roundtrip :
     deserialize parse_type (serialize type_string s) = Some s.
 Proof. exact schema_roundtrip. Qed.
 Print Assumptions C37_schema_roundtrip.
+
+Theorem C37_fk_roundtrip :
+  forall (encode_name : bytes -> bytes) (decode_name : bytes -> option bytes) l,
+    (forall k, In k l -> decode_name (encode_name (fk_table k)) = Some (fk_table k)
+                         /\ decode_name (encode_name (fk_reftable k)) = Some (fk_reftable k)) ->
+    fk_deserialize decode_name (fk_serialize encode_name l) = Some l.
+Proof. exact fk_roundtrip. Qed.
+Print Assumptions C37_fk_roundtrip.
+
+Theorem C37_oracle_a_on_model :
+  forall i, Forall (wf_schema (fun x => x) (fun x => Some x)) (i_schemas i) -> oracle_a i (model_obs i) = true.
+Proof. exact oracle_a_on_model. Qed.
+Print Assumptions C37_oracle_a_on_model.
+
+Theorem C37_oracle_b_on_model : forall i, oracle_b (model_obs i) = true.
+Proof. exact oracle_b_on_model. Qed.
+Print Assumptions C37_oracle_b_on_model.
+
+(* Full statement (false without input_safe: C37_tags_distinct_refuted): forall i, oracle i (model_obs i) = true. *)
+Theorem C37_oracle_on_model_partial :
+  forall i, Forall (wf_schema (fun x => x) (fun x => Some x)) (i_schemas i) -> input_safe i = true ->
+    oracle i (model_obs i) = true.
+Proof. exact oracle_on_model_partial. Qed.
+Print Assumptions C37_oracle_on_model_partial.
 
 Theorem C37_field_comparison_decides_equality :
   forall a b, sschema_eqb a b = true <-> a = b.
